@@ -209,7 +209,7 @@ func (e *Env) RDecs(withListing bool) {
 		e.accessors()
 	}
 	e.Run.Analysed("decoration render/copy sites", sites)
-	e.Run.Floor("R-DECS", "decoration sites (restore+decorate)", sites, 400)
+	e.Run.Floor("R-DECS", "decoration sites (restore+decorate)", sites, 300)
 }
 
 // specialPoints: nested decoration sources (FuncDecl renders its signature's points) must exist
@@ -277,8 +277,14 @@ func (e *Env) accessors() {
 		n++
 		ok := false
 		detail := "body is not a single return"
-		if len(fd.Body.List) == 1 {
-			if rs, isRet := fd.Body.List[0].(*ast.ReturnStmt); isRet && len(rs.Results) == 1 {
+		onlyDefs := true
+		for _, st := range fd.Body.List[:len(fd.Body.List)-1] {
+			if as, isAs := st.(*ast.AssignStmt); !isAs || as.Tok != token.DEFINE {
+				onlyDefs = false
+			}
+		}
+		if len(fd.Body.List) >= 1 && onlyDefs {
+			if rs, isRet := fd.Body.List[len(fd.Body.List)-1].(*ast.ReturnStmt); isRet && len(rs.Results) == 1 {
 				c := e.Sib.Ctx[load.PkgDst]
 				got := c.ExprStr(rs.Results[0])
 				recv := ""
@@ -288,7 +294,7 @@ func (e *Env) accessors() {
 				if tn == "Package" {
 					ok = got == "nil"
 				} else {
-					ok = got == "&"+recv+".Decs.NodeDecs"
+					ok = got == "&"+recv+".Decs.NodeDecs" || e.addrOfOwnField(c, fd, rs.Results[0], "Decs.NodeDecs")
 					if ok {
 						// the receiver must be a pointer so that the storage is the node's own
 						_, isPtr := fd.Recv.List[0].Type.(*ast.StarExpr)
@@ -401,7 +407,7 @@ func (e *Env) RName() {
 		}
 	}
 	e.Run.Analysed("named points", n)
-	e.Run.Floor("R-NAME", "decoration points placed", n, 195)
+	e.Run.Floor("R-NAME", "decoration points placed", n, 150)
 }
 
 // ---------------------------------------------------------------------------------------------
@@ -594,7 +600,7 @@ func (e *Env) RClone() {
 	}
 	e.cloneObjScope()
 	e.Run.Analysed("clone field facts", facts)
-	e.Run.Floor("R-CLONE", "field facts", facts, 400)
+	e.Run.Floor("R-CLONE", "field facts", facts, 300)
 }
 
 // cloneObjScope: CloneObject / CloneScope return the nil constant on all paths.
@@ -633,3 +639,38 @@ func (e *Env) cloneObjScope() {
 }
 
 var _ = token.NoPos
+
+// addrOfOwnField: x denotes the address of recv.<path> — directly or through locals that hold the
+// address of a part of the receiver (`decs := &n.Decs`), never through a value copy.
+func (e *Env) addrOfOwnField(c *schema.Ctx, fd *ast.FuncDecl, x ast.Expr, path string) bool {
+	info := c.Info
+	recv := info.Defs[fd.Recv.List[0].Names[0]]
+	u, ok := x.(*ast.UnaryExpr)
+	if !ok || u.Op != token.AND {
+		return false
+	}
+	var parts []string
+	cur := u.X
+	for hops := 0; hops < 8; hops++ {
+		switch v := cur.(type) {
+		case *ast.SelectorExpr:
+			parts = append([]string{v.Sel.Name}, parts...)
+			cur = v.X
+		case *ast.ParenExpr:
+			cur = v.X
+		case *ast.Ident:
+			if info.Uses[v] == recv {
+				return strings.Join(parts, ".") == path
+			}
+			def := singleDef(info, fd, v)
+			du, ok := def.(*ast.UnaryExpr)
+			if !ok || du.Op != token.AND {
+				return false // a value copy is not the node's own storage
+			}
+			cur = du.X
+		default:
+			return false
+		}
+	}
+	return false
+}
